@@ -42,6 +42,11 @@ import (
 // chainkd keys and real signatures over bc.Tx.SigHash; then every single mutation listed in
 // c02mutations is applied to a fresh copy.
 //
+// Entry kinds: every base (and its mutations: all witness mutations, a sample of the committed-field ones in the
+// quick tier) is also built as a VETO of a vote output carrying the same control program (types.NewVetoInput,
+// amount >= MinVoteOutputAmount, 64-byte vote key; label suffix @veto) and as an ISSUANCE whose issuance program
+// is that witness-form program (label suffix @issuance): NewTxVMContext must convert the program for all of them.
+//
 // Signature malleability share: every valid signature R||S of a witness is also offered as its
 // non-canonical twins R||(S+kL) (L = group order; k = 1.. while it fits 256 bits), with each of the
 // three top bits of S set, and with R re-encoded non-canonically (y+p, possible only for y < 19);
@@ -161,7 +166,9 @@ func (b *c02base) sign() {
 }
 
 // c02build: shape 0 = one BTM input, two BTM outputs; shape 1 = input 0 carries another asset,
-// input 1 (BTM, P2WPKH of its own key) pays the gas; shape 2 = like 0 plus a retirement output
+// input 1 (BTM, P2WPKH of its own key) pays the gas; shape 2 = like 0 plus a retirement output;
+// shape 3 = input 0 is a VETO of a vote output with that control program; shape 4 = input 0 is an ISSUANCE
+// whose issuance program is that (witness-form) program, input 1 pays the gas
 func c02build(c *Ctx, lock *c02lock, shape int) *c02base {
 	b := &c02base{td: &types.TxData{Version: 1, TimeRange: 0}}
 	other := func() []byte {
@@ -184,6 +191,37 @@ func c02build(c *Ctx, lock *c02lock, shape int) *c02base {
 		}
 		if shape == 2 {
 			b.td.Outputs = append(b.td.Outputs, types.NewOriginalTxOutput(btm, 100, c02must(vmutil.RetireProgram([]byte("c02"))), nil))
+		}
+	case 3:
+		// a VETO of a vote output carrying the same control program
+		amt := uint64(consensus.MinVoteOutputAmount + c02fee + 1000 + uint64(c.Rng.Intn(1000000)))
+		vote := make([]byte, 64)
+		c.Rng.Read(vote)
+		b.td.Inputs = []*types.TxInput{types.NewVetoInput(nil, c02hash(c), btm, amt, uint64(c.Rng.Intn(3)), lock.prog, vote, nil)}
+		b.locks = []*c02lock{lock}
+		rest := amt - c02fee
+		a0 := 1 + uint64(c.Rng.Int63n(int64(rest-300)))
+		b.td.Outputs = []*types.TxOutput{
+			types.NewOriginalTxOutput(btm, a0, other(), nil),
+			types.NewOriginalTxOutput(btm, rest-a0-100, other(), [][]byte{{1, 2, 3}}),
+		}
+	case 4:
+		// an ISSUANCE whose issuance program has the witness form (convertProgram applies to it too)
+		nonce := make([]byte, 8)
+		c.Rng.Read(nonce)
+		def := make([]byte, 4+c.Rng.Intn(12))
+		c.Rng.Read(def)
+		amt := uint64(10 + c.Rng.Intn(100000))
+		in0 := types.NewIssuanceInput(nonce, amt, lock.prog, nil, def)
+		asset := in0.AssetID()
+		gasLock := c02pkh(c)
+		gasAmt := uint64(c02fee + 5000 + c.Rng.Intn(100000))
+		b.td.Inputs = []*types.TxInput{in0, types.NewSpendInput(nil, c02hash(c), btm, gasAmt, 1, gasLock.prog, nil)}
+		b.locks = []*c02lock{lock, gasLock}
+		b.td.Outputs = []*types.TxOutput{
+			types.NewOriginalTxOutput(asset, amt-3, other(), nil),
+			types.NewOriginalTxOutput(btm, gasAmt-c02fee, other(), nil),
+			types.NewOriginalTxOutput(asset, 3, other(), nil),
 		}
 	case 1:
 		asset := c02asset(c)
@@ -510,7 +548,16 @@ func c02clone(td *types.TxData) *types.TxData {
 	return out
 }
 
-func c02spend(td *types.TxData, i int) *types.SpendInput { return td.Inputs[i].TypedInput.(*types.SpendInput) }
+// the spend commitment of a spend or veto input (nil for an issuance)
+func c02sc(td *types.TxData, i int) *types.SpendCommitment {
+	switch t := td.Inputs[i].TypedInput.(type) {
+	case *types.SpendInput:
+		return &t.SpendCommitment
+	case *types.VetoInput:
+		return &t.SpendCommitment
+	}
+	return nil
+}
 
 func c02flip(b []byte, pos int) []byte {
 	out := append([]byte{}, b...)
@@ -551,7 +598,7 @@ func c02mutations(c *Ctx, b *c02base) []c02mut {
 	add := func(label string, f func(td *types.TxData)) { ms = append(ms, c02mut{label: label, f: f}) }
 	addBV := func(label string, bv uint64, f func(td *types.TxData)) { ms = append(ms, c02mut{label: label, bv: bv, f: f}) }
 	lock := b.locks[0]
-	args0 := c02spend(b.td, 0).Arguments
+	args0 := b.td.Inputs[0].Arguments()
 	nsig := len(args0) - 1
 	if lock.kind == "pkh" {
 		nsig = 1
@@ -785,7 +832,14 @@ func c02mutations(c *Ctx, b *c02base) []c02mut {
 	// --- witness-only / uncommitted serialized fields
 	add("A/witnesssuffix", func(td *types.TxData) { td.Inputs[0].WitnessSuffix = []byte{1, 2, 3} })
 	add("A/commitmentsuffix", func(td *types.TxData) { td.Inputs[0].CommitmentSuffix = []byte{9} })
-	add("A/spendcommitmentsuffix", func(td *types.TxData) { c02spend(td, 0).SpendCommitmentSuffix = []byte{7, 7} })
+	add("A/spendcommitmentsuffix", func(td *types.TxData) {
+		switch t := td.Inputs[0].TypedInput.(type) {
+		case *types.SpendInput:
+			t.SpendCommitmentSuffix = []byte{7, 7}
+		case *types.VetoInput:
+			t.VetoCommitmentSuffix = []byte{7, 7}
+		}
+	})
 	add("A/outputcommitmentsuffix", func(td *types.TxData) { td.Outputs[0].CommitmentSuffix = []byte{5} })
 
 	// --- committed transaction fields (signatures untouched)
@@ -796,24 +850,57 @@ func c02mutations(c *Ctx, b *c02base) []c02mut {
 	add("R/timerange.past", func(td *types.TxData) { td.TimeRange = 1 + uint64(c.Rng.Intn(50)) })
 	for i := range b.td.Inputs {
 		i := i
+		if iss, ok := b.td.Inputs[i].TypedInput.(*types.IssuanceInput); ok {
+			// an issuance commits to nonce, amount, asset definition, vm version and program
+			// (the last three through the asset id)
+			_ = iss
+			is := func(td *types.TxData) *types.IssuanceInput { return td.Inputs[i].TypedInput.(*types.IssuanceInput) }
+			add(fmt.Sprintf("R/in%d.nonce", i), func(td *types.TxData) { is(td).Nonce = c02flip(is(td).Nonce, c.Rng.Intn(64)) })
+			add(fmt.Sprintf("R/in%d.amount+1", i), func(td *types.TxData) { is(td).Amount++ })
+			add(fmt.Sprintf("R/in%d.amount-1", i), func(td *types.TxData) { is(td).Amount-- })
+			add(fmt.Sprintf("R/in%d.assetdef", i), func(td *types.TxData) {
+				is(td).AssetDefinition = c02flip(is(td).AssetDefinition, c.Rng.Intn(64))
+			})
+			for _, pos := range []int{2, 11, 21} {
+				pos := pos
+				add(fmt.Sprintf("R/in%d.program.%d", i, pos), func(td *types.TxData) {
+					is(td).IssuanceProgram = c02flip(is(td).IssuanceProgram, pos)
+				})
+			}
+			add(fmt.Sprintf("R/in%d.program.otherlock", i), func(td *types.TxData) {
+				is(td).IssuanceProgram = c02must(vmutil.P2WPKHProgram(crypto.Ripemd160(stranger.pub)))
+			})
+			continue
+		}
 		add(fmt.Sprintf("R/in%d.sourceid", i), func(td *types.TxData) {
-			s := c02spend(td, i)
+			s := c02sc(td, i)
 			raw := s.SourceID.Byte32()
 			raw[c.Rng.Intn(32)] ^= 1 << uint(c.Rng.Intn(8))
 			s.SourceID = bc.NewHash(raw)
 		})
 		add(fmt.Sprintf("R/in%d.assetid", i), func(td *types.TxData) {
-			s := c02spend(td, i)
+			s := c02sc(td, i)
 			raw := s.AssetId.Byte32()
 			raw[c.Rng.Intn(32)] ^= 1 << uint(c.Rng.Intn(8))
 			a := bc.NewAssetID(raw)
 			s.AssetId = &a
 		})
-		add(fmt.Sprintf("R/in%d.amount+1", i), func(td *types.TxData) { c02spend(td, i).Amount++ })
-		add(fmt.Sprintf("R/in%d.amount-1", i), func(td *types.TxData) { c02spend(td, i).Amount-- })
-		add(fmt.Sprintf("R/in%d.sourcepos", i), func(td *types.TxData) { c02spend(td, i).SourcePosition++ })
-		add(fmt.Sprintf("R/in%d.vmversion", i), func(td *types.TxData) { c02spend(td, i).VMVersion = 2 })
-		add(fmt.Sprintf("R/in%d.statedata", i), func(td *types.TxData) { c02spend(td, i).StateData = [][]byte{{1}} })
+		add(fmt.Sprintf("R/in%d.amount+1", i), func(td *types.TxData) { c02sc(td, i).Amount++ })
+		add(fmt.Sprintf("R/in%d.amount-1", i), func(td *types.TxData) { c02sc(td, i).Amount-- })
+		add(fmt.Sprintf("R/in%d.sourcepos", i), func(td *types.TxData) { c02sc(td, i).SourcePosition++ })
+		add(fmt.Sprintf("R/in%d.vmversion", i), func(td *types.TxData) { c02sc(td, i).VMVersion = 2 })
+		add(fmt.Sprintf("R/in%d.statedata", i), func(td *types.TxData) { c02sc(td, i).StateData = [][]byte{{1}} })
+		if _, ok := b.td.Inputs[i].TypedInput.(*types.VetoInput); ok {
+			// the vote key of the spent vote output is part of its id
+			add(fmt.Sprintf("R/in%d.vote", i), func(td *types.TxData) {
+				v := td.Inputs[i].TypedInput.(*types.VetoInput)
+				v.Vote = c02flip(v.Vote, c.Rng.Intn(512))
+			})
+			add(fmt.Sprintf("R/in%d.votelen", i), func(td *types.TxData) {
+				v := td.Inputs[i].TypedInput.(*types.VetoInput)
+				v.Vote = v.Vote[:63]
+			})
+		}
 		for _, pos := range []int{0, 1, 2, 11, 21} {
 			pos := pos
 			lab := "R" // another hash in the same standard program
@@ -821,12 +908,12 @@ func c02mutations(c *Ctx, b *c02base) []c02mut {
 				lab = "X" // the two header bytes: no longer a standard program (an arbitrary script may well succeed)
 			}
 			add(fmt.Sprintf("%s/in%d.program.%d", lab, i, pos), func(td *types.TxData) {
-				s := c02spend(td, i)
+				s := c02sc(td, i)
 				s.ControlProgram = c02flip(s.ControlProgram, pos)
 			})
 		}
 		add(fmt.Sprintf("R/in%d.program.otherlock", i), func(td *types.TxData) {
-			c02spend(td, i).ControlProgram = c02must(vmutil.P2WPKHProgram(crypto.Ripemd160(stranger.pub)))
+			c02sc(td, i).ControlProgram = c02must(vmutil.P2WPKHProgram(crypto.Ripemd160(stranger.pub)))
 		})
 	}
 	for o := range b.td.Outputs {
@@ -1104,6 +1191,19 @@ func c02smallOrder(c *Ctx, k int) []struct {
 	return out
 }
 
+// mutations of the witness of input 0 (signatures, keys, redeem script, argument list)
+func c02witnessLabel(l string) bool {
+	if i := strings.Index(l, "/"); i >= 0 {
+		l = l[i+1:]
+	}
+	for _, p := range []string{"sig", "extra", "noargs", "pk", "script", "othersubset"} {
+		if strings.HasPrefix(l, p) {
+			return true
+		}
+	}
+	return false
+}
+
 func c02replayLine(c *Ctx, line string) {
 	w := strings.Fields(line)
 	if len(w) < 4 || w[0] != "tx" {
@@ -1124,7 +1224,7 @@ func c02replayLine(c *Ctx, line string) {
 }
 
 func runC02(c *Ctx) {
-	c.Rule = "for P2WPKH and P2WSH-of-multisig m-of-n (all 1<=m<=n<=6) with fresh chainkd keys (RootXPrv + non-hardened derivation), a transaction of one of three shapes (single BTM input; asset input + BTM gas input; with a retirement output) is built with the repository's program builders, signed over bc.Tx.SigHash, serialized, decoded with Tx.UnmarshalText and validated with validation.ValidateTx; then every single mutation of c02mutations (signatures, keys, redeem script, witness-only fields, every committed field, orders, added/dropped/duplicated inputs and outputs) is applied to a fresh copy; plus P2WSH of hand-made scripts (m>n, m=0, 0-of-0, short message, short key, repeated key, huge n, low gas) for the correspondence; malleability share: every valid signature also as R||(S+kL) for all k that fit 256 bits, with each top bit of S set, R with flipped sign / non-canonical y, and outputs locked to small-order / non-canonically encoded keys spent with (identity,0), (identity,L), (non-canonical identity,0); the Ed25519 oracle table is computed with the standard library verifier of the harness module, canonicity is decided from the bytes"
+	c.Rule = "for P2WPKH and P2WSH-of-multisig m-of-n (all 1<=m<=n<=6) with fresh chainkd keys (RootXPrv + non-hardened derivation), a transaction of one of three shapes (single BTM input; asset input + BTM gas input; with a retirement output) — and, for the same lock, a VETO of a vote output carrying that control program and an ISSUANCE whose issuance program is that witness-form program — is built with the repository's program builders, signed over bc.Tx.SigHash, serialized, decoded with Tx.UnmarshalText and validated with validation.ValidateTx; then every single mutation of c02mutations (signatures, keys, redeem script, witness-only fields, every committed field, orders, added/dropped/duplicated inputs and outputs) is applied to a fresh copy; plus P2WSH of hand-made scripts (m>n, m=0, 0-of-0, short message, short key, repeated key, huge n, low gas) for the correspondence; malleability share: every valid signature also as R||(S+kL) for all k that fit 256 bits, with each top bit of S set, R with flipped sign / non-canonical y, and outputs locked to small-order / non-canonically encoded keys spent with (identity,0), (identity,L), (non-canonical identity,0); the Ed25519 oracle table is computed with the standard library verifier of the harness module, canonicity is decided from the bytes"
 	if c.Replay != "" {
 		for _, l := range c.ReplayLines() {
 			c02replayLine(c, l)
@@ -1160,32 +1260,46 @@ func runC02(c *Ctx) {
 		if k < len(combos) {
 			shape = k % 3
 		}
-		b := c02build(c, lock, shape)
-		b.name = fmt.Sprintf("%s.%dof%d.shape%d", cb.kind, cb.m, cb.n, shape)
-		c.Count("base:" + cb.kind + fmt.Sprintf(".%dof%d", cb.m, cb.n))
-		c.Distinct(b.name)
 		bh := uint64(60 + c.Rng.Intn(30))
 		bv := uint64(1 + c.Rng.Intn(2))
-		c02run(c, bv, bh, c02text(b.td), "A/base."+b.name)
-		muts := c02mutations(c, b)
-		// the quick tier runs every mutation for the first pass over the combos, then a sample
-		for _, m := range muts {
-			if k >= len(combos) && c.Tier == "quick" && !strings.Contains(m.label, "signoncanon") && c.Rng.Intn(4) != 0 {
-				continue
+		// full: every mutation (quick tier: after the first pass over the combos a sample, but always the
+		// malleability twins); otherwise (the veto / issuance twins of the base) every WITNESS mutation and a
+		// third of the committed-field ones
+		runBase := func(shape int, tag string, full bool) {
+			b := c02build(c, lock, shape)
+			b.name = fmt.Sprintf("%s.%dof%d.shape%d", cb.kind, cb.m, cb.n, shape)
+			c.Count("base:" + cb.kind + fmt.Sprintf(".%dof%d", cb.m, cb.n) + tag)
+			c.Distinct(b.name)
+			c02run(c, bv, bh, c02text(b.td), "A/base."+b.name+tag)
+			for _, m := range c02mutations(c, b) {
+				witness := c02witnessLabel(m.label)
+				if c.Tier == "quick" {
+					if full && k >= len(combos) && !strings.Contains(m.label, "signoncanon") && c.Rng.Intn(4) != 0 {
+						continue
+					}
+					if !full && !witness && c.Rng.Intn(3) != 0 {
+						continue
+					}
+				}
+				td := c02clone(b.td)
+				before := c02text(td)
+				m.f(td)
+				text := c02text(td)
+				if text == before {
+					continue // the mutation did not apply to this base
+				}
+				v := bv
+				if m.bv != 0 {
+					v = m.bv
+				}
+				c02run(c, v, bh, text, m.label+tag)
+				c.Distinct(b.name + m.label)
 			}
-			td := c02clone(b.td)
-			before := c02text(td)
-			m.f(td)
-			text := c02text(td)
-			if text == before {
-				continue // the mutation did not apply to this base
-			}
-			v := bv
-			if m.bv != 0 {
-				v = m.bv
-			}
-			c02run(c, v, bh, text, m.label)
-			c.Distinct(b.name + m.label)
+		}
+		runBase(shape, "", true)
+		runBase(3, "@veto", false)
+		if k%2 == 0 || c.Tier != "quick" {
+			runBase(4, "@issuance", false)
 		}
 		for j := 0; j < 3; j++ {
 			td, name := c02wild(c)
